@@ -192,6 +192,7 @@ Definition set_link (lk : list (Z * Z)) (g r : Z) : list (Z * Z) :=
 Definition region_lt_cds (r : area) (g : gene) : bool :=
   if zmem (gid g) (amem r) then true
   else if contains (aloc r) (gloc g) && negb (contains (gloc g) (aloc r)) then true
+  else if contains (gloc g) (aloc r) && negb (contains (aloc r) (gloc g)) then false  (* mirrored shortcut: repair of finding F53 / C10-F46 *)
   else pair_lt (ckey (aloc r)) (ckey (gloc g)).
 (* Feature.__lt__(cds, region) *)
 Definition cds_lt_region (g : gene) (r : area) : bool := feat_lt (gloc g) (aloc r).
@@ -250,6 +251,7 @@ Definition add_area (st : state) (a : area) : res state :=
 (* CDSCollection.__lt__(new region, existing region): neither is a child of the other *)
 Definition region_lt_region (a b : area) : bool :=
   if contains (aloc a) (aloc b) && negb (contains (aloc b) (aloc a)) then true
+  else if contains (aloc b) (aloc a) && negb (contains (aloc a) (aloc b)) then false  (* mirrored shortcut: repair of finding F53 / C10-F46 *)
   else pair_lt (ckey (aloc a)) (ckey (aloc b)).
 
 (* add_region: ValueError when the new region overlaps ANY existing region, then the insertion loop: the index of the
